@@ -30,6 +30,7 @@ def default_params(tier):
     p["size_hi"] = 30 if tier == "quick" else 60
     p["max_faults"] = 6 if tier == "quick" else 60
     p["growth_reps"] = 6 if tier == "quick" else 30
+    p["py_entry"] = 5
     return p
 
 
@@ -51,7 +52,9 @@ def module_container_sizes():
 
 
 def render_once(prog, classes, w, budget, fault_at=None, exc_kind=0, keep_refs=None):
-    """One top-level render with a fresh Context. Returns (result tuple, weakrefs)."""
+    """One top-level render with a fresh Context. Returns (result tuple, weakrefs).
+    Pages that are a single component tag with text-only fills (py_entry) go through Component.render(kwargs, slots)
+    with every fill passed as a Python slot function - the remaining kind of user callback named by the statement."""
     from django.template import Context, Template
 
     src = emit.page_source(prog)
@@ -65,7 +68,22 @@ def render_once(prog, classes, w, budget, fault_at=None, exc_kind=0, keep_refs=N
     res = None
     try:
         with R.StepBudget(budget):
-            html = Template(src).render(ctx)
+            if prog.get("py_entry"):
+                node = prog["page"][0]
+                kwargs = {k: e[1] for k, e in node[2]}
+                kw_sent = Sentinel()
+                refs["kwarg_object"] = weakref.ref(kw_sent)
+                kwargs["obj"] = kw_sent
+                slots = {}
+                for f in (node[5] if node[4] == "fills" else []):
+                    def fn(c, d, r, text=f[4][0][1], name=f[1][1]):
+                        world.fault_point("slotfn:" + name)
+                        return text
+                    slots[f[1][1]] = fn
+                html = classes[node[1]].render(context=ctx, kwargs=kwargs, slots=slots)
+                del kwargs, kw_sent, slots
+            else:
+                html = Template(src).render(ctx)
         res = ("ok", str(html))
     except world.StepBudgetExceeded as e:
         res = ("hang", str(e))
@@ -201,6 +219,9 @@ def run(ch, params, decoded=False):
                     violate("EXCEPTION-REPLACED", [kind_name], dict(extra, what="a different exception object escaped"))
                 elif order_agrees:
                     want = list(model_events[fi - 1][1])
+                    if prog.get("py_entry") and want:
+                        # Component.render() on the class: the root instance has no registered name, its name is the class name
+                        want[0] = classes[prog["page"][0][1]].__name__
                     names = path_names(got.args[0] if got.args else None)
                     if want and names is None:
                         violate("NO-PATH-ANNOTATION", [site.split(":")[0]], dict(extra, expected_path=want, message=str(got)[:300]))
